@@ -5,5 +5,7 @@ import pkgutil
 
 def load_all():
     import contracts as pkg
+    import pyvc.ext
+    pyvc.ext.load_all()
     for m in sorted(pkgutil.iter_modules(pkg.__path__), key=lambda m: m.name):
         importlib.import_module('contracts.' + m.name)
